@@ -1221,3 +1221,23 @@ V("C08", "benign-meminfo-split-temp", L,
 V("C08", "benign-slab-get", L,
   ("    try:\n        slab = mems[b\"Slab:\"]\n    except KeyError:\n        slab = 0\n",
    "    slab = mems.get(b\"Slab:\", 0)\n"), "silent")
+
+# ----------------------------------------------------------------- round-2 seed-driven rules
+V("C01", "is-running-memoised-in-oneshot", I,
+  [("    def is_running(self):\n        \"\"\"Return whether this process is running.",
+    "    @memoize_when_activated\n    def is_running(self):\n        \"\"\"Return whether this process is running."),
+   ("                    self.ppid.cache_activate(self)\n", "                    self.ppid.cache_activate(self)\n                    self.is_running.cache_activate(self)\n"),
+   ("                    self.ppid.cache_deactivate(self)\n", "                    self.ppid.cache_deactivate(self)\n                    self.is_running.cache_deactivate(self)\n")],
+  "fires:C01.R6")
+V("C02", "reused-verdict-from-pid-set", I,
+  ("        if self._gone or self._pid_reused:\n            return False\n        try:",
+   "        if self._gone or self._pid_reused:\n            return False\n        if self.pid in _pids_reused:\n            self._pid_reused = True\n            return False\n        try:"),
+  "fires:C02.R4")
+V("C07", "cpu-line-label-counted", L,
+  ("        values = f.readline().split()[1:]", "        values = f.readline().split()"), "fires:C07.R1")
+V("C07", "benign-cpu-line-count-two-steps", L,
+  ("        values = f.readline().split()[1:]", "        tokens = f.readline().split()\n        values = tokens[1:]"),
+  "silent")
+V("C03", "helpers-lose-translator", L,
+  ("    @wrap_exceptions\n    @memoize_when_activated\n    def _read_status_file(self):",
+   "    @memoize_when_activated\n    def _read_status_file(self):"), "fires:C03.R1")
